@@ -217,6 +217,16 @@ class CellDriver:
 
     def gen_affinity(self):
         rng, H = self.rng, self.H
+        retired = [a for a in sorted(H.affinities) if H.affinities[a] and
+                   not any(ha['affinity'] == a for ha in H.apps.values())]
+        if retired and rng.random() < 0.35:
+            # every instance of the affinity is gone: the application comes back with its limits on other levels
+            name = rng.choice(retired)
+            vals = list(H.affinities[name].values())
+            rng.shuffle(vals)
+            H.affinities[name] = dict(zip(rng.sample(['server', 'rack', 'pod', 'cell'], len(vals)), vals))
+            self.mon.count('affinity_back_with_other_limit_levels')
+            return name, H.affinities[name]
         if H.affinities and rng.random() < 0.7:
             name = rng.choice(sorted(H.affinities))
             return name, H.affinities[name]
